@@ -89,7 +89,7 @@ def _worker_supp(job):
     out = {'suffixes': suffixes, 'trees': []}
     for t in job['trees']:
         res = {}
-        full = t['extra'] + base
+        full = t['extra'] + base + t.get('after', [])
         sys.path[:] = full
         p = Project(list(t['sources']))
         loaded0 = sorted(sys.modules)
@@ -111,11 +111,23 @@ def _worker_supp(job):
             gm.append(r)
         res['gm'] = gm
         nm = []
-        for fname, _guess, spec in t['rel']:
+        home = os.getcwd()
+        relproj = {}
+        for item in t['rel']:
+            fname, spec = item[0], item[2]
+            cwd = item[3] if len(item) > 3 else None
+            proj = p
+            if cwd:
+                # the file name is handed over relative to the working directory
+                os.chdir(cwd)
+                fname = os.path.relpath(fname, cwd)
+                proj = relproj.setdefault(cwd, Project(['.']))
             try:
-                r = ['ok', p.norm_package(spec, fname)]
+                r = ['ok', proj.norm_package(spec, fname)]
             except Exception as e:  # noqa
                 r = classify_exc(e)
+            finally:
+                os.chdir(home)
             nm.append(r)
         res['norm'] = nm
         # really import some deep modules of the tree (empty sources), so that sys.modules holds
@@ -129,7 +141,7 @@ def _worker_supp(job):
                 pass
         res['loaded2'] = sorted(sys.modules)
         # list_packages / assist: sys.path reduced to the tree's own extra entries
-        sys.path[:] = t['extra']
+        sys.path[:] = t['extra'] + t.get('after', [])
         p2 = Project(list(t['sources']))
         ls = []
         for pkg in t['lists']:
@@ -223,12 +235,13 @@ def _worker_oracle(job):
            'trees': []}
     for t in job['trees']:
         res = {}
-        short = t['sources'] + t['extra']
-        sys.path[:] = short + base
+        short = t['sources'] + t['extra'] + t.get('after', [])
+        sys.path[:] = t['sources'] + t['extra'] + base + t.get('after', [])
         importlib.invalidate_caches()
         res['find'] = [fresh_find(n) for n in t['names']]
         rel = []
-        for fname, guess, spec in t['rel']:
+        for item in t['rel']:
+            fname, guess, spec = item[:3]
             f = fresh_find(guess) if guess else ['none', '']
             if f[0] == 'file' and f[1] == fname:
                 package = f[4]
@@ -428,9 +441,21 @@ def gen_tree(rng, idx, ext_sfx):
         ents[roots[0] + '/__init__.py'] = 'F'
     rng.shuffle(roots)
     extra = []
+    after = []
     if len(roots) > 1 and rng.random() < 0.3:
         extra = [roots.pop()]
-    t = {'id': 'g%d' % idx, 'entries': ents, 'sources': roots, 'extra': extra}
+    # a source root that is ALSO an entry of sys.path (PYTHONPATH / .pth / editable install), in front of
+    # or behind the interpreter's own entries; and plain entries behind the stdlib
+    r = rng.random()
+    if r < 0.2:
+        extra = extra + [rng.choice(roots)]
+    elif r < 0.4:
+        after = [rng.choice(roots)]
+    elif r < 0.5 and len(roots) > 1:
+        after = [roots.pop()]
+        if rng.random() < 0.5:
+            after.append(rng.choice(roots))
+    t = {'id': 'g%d' % idx, 'entries': ents, 'sources': roots, 'extra': extra, 'after': after}
     fill_queries(rng, t)
     return t
 
@@ -446,7 +471,7 @@ def misspell(rng, name):
 
 def fill_queries(rng, t, nnames=34, nrel=30, nlists=8, nassist=5):
     ents = t['entries']
-    roots = t['sources'] + t['extra']
+    roots = list(dict.fromkeys(t['sources'] + t['extra'] + t.get('after', [])))
     names, files = module_names(ents, roots)
     pick = list(names)
     rng.shuffle(pick)
@@ -467,7 +492,9 @@ def fill_queries(rng, t, nnames=34, nrel=30, nlists=8, nassist=5):
         dcomps = rel_file.split('/')[1:-1]
         for level in range(1, len(dcomps) + 3):
             for rest in rng.sample(['', 'x', 'x.y', rng.choice(POOL)], 2):
-                rel.append([rel_file, files[rel_file], '.' * level + rest])
+                # file name absolute, relative to its root (sources ['.']) or relative to the directory above
+                cwd = rng.choice([None, None, root, root, '.'])
+                rel.append([rel_file, files[rel_file], '.' * level + rest, cwd])
     rng.shuffle(rel)
     t['rel'] = rel[:nrel]
     pk = [n for n in names if any(ents.get(r + '/' + n.replace('.', '/')) == 'D' for r in roots)]
@@ -537,9 +564,13 @@ def materialise(t, scratch, pyc):
 def concretise(t, tb):
     """tree spec with absolute paths, as sent to the workers."""
     ab = lambda r: os.path.join(tb, r)  # noqa
+    def cw(item):
+        c = item[3] if len(item) > 3 else None
+        return None if c is None else (tb if c == '.' else ab(c))
     c = {'tbase': tb, 'sources': [ab(r) for r in t['sources']], 'extra': [ab(r) for r in t['extra']],
+         'after': [ab(r) for r in t.get('after', [])],
          'names': t['names'], 'lists': t['lists'], 'preload': t.get('preload', []),
-         'rel': [[ab(f), g, s] for f, g, s in t['rel']],
+         'rel': [[ab(i[0]), i[1], i[2], cw(i)] for i in t['rel']],
          'assist': [dict(a, file=(ab(a['file']) if a.get('file') else None)) for a in t['assist']]}
     return c
 
@@ -628,7 +659,7 @@ Inductive ofind := OFile (f : path) (ispkg src : bool) (parent : list str) | ONo
 Inductive olist := OList (l : list str) | OLErr | OLOther.
 Inductive q :=
 | QMod (name : list str) (o : ogm) (r : ofind)
-| QRel (name : list str) (file : path) (level : nat) (rest : list str) (o : nres) (r : option (list str * nres))
+| QRel (name : list str) (file : path) (cwd : option path) (level : nat) (rest : list str) (o : nres) (r : option (list str * nres))
 | QList (pkg : list str) (o : olist) (r : option (list str))
 | QAssist (level : nat) (rest : list str) (file : path) (withmod : bool) (attrs : option (list str)) (o : olist)
 | QSplit (s h t j : str).
@@ -673,8 +704,12 @@ Definition code (c : tree * q) : nat :=
   | QMod name o r =>
       (if gm_ok t name o then 0 else 1) + (if find_ok t name r then 0 else 2) +
       (if dom (FS t) LSFX (t_full t) name then 4 else 0)
-  | QRel name file level rest o r =>
-      (if nres_eqb (norm_package (FS t) level rest file) o then 0 else 1) +
+  | QRel name file cwd level rest o r =>
+      (* cwd = Some c: the API got the file name relative to the working directory c *)
+      (if nres_eqb (match cwd with
+                    | None => norm_package (FS t) level rest file
+                    | Some c => norm_package_rel (FS t) c level rest (skipn (List.length c) file)
+                    end) o then 0 else 1) +
       (match r with
        | None => 0
        | Some (package, ro) =>
@@ -682,7 +717,8 @@ Definition code (c : tree * q) : nat :=
        end) +
       (match importlib_walk (FS t) LSFX (t_full t) name with
        | RFound (f, _, _) =>
-           if path_eqb f file && dom (FS t) LSFX (t_full t) name && forallb (root_ok (FS t)) (t_full t)
+           if path_eqb f file && dom (FS t) LSFX (t_full t) name && forallb (root_ok (FS t)) (t_full t) &&
+              match cwd with None => true | Some c => root_ok (FS t) c end
            then 4 else 0
        | _ => 0 end)
   | QList pkg o r =>
@@ -759,8 +795,8 @@ def build_cases(ctx, t, ct, tb, sres, ores, base, sfx_all):
     listing[tb] = 'D'
     ents = pr.node(listing)
     loaded = [n for n in sres['loaded'] if wellformed(n)]
-    full = ct['sources'] + ct['extra'] + base
-    short = ct['sources'] + ct['extra']
+    full = ct['sources'] + ct['extra'] + base + ct.get('after', [])
+    short = ct['sources'] + ct['extra'] + ct.get('after', [])
     base_loaded = set(sres['loaded'])
     extra_loaded = [n for n in sres['loaded2'] if n not in base_loaded and wellformed(n)]
     defs = 'Definition tr_%s := mkT %s %s %s LOADED_%s (%s ++ LOADED_%s).\n' % (
@@ -807,7 +843,7 @@ def build_cases(ctx, t, ct, tb, sres, ores, base, sfx_all):
         cases.append(Case(key, 'mod', '(%s, QMod %s %s %s)' % (T, cname(name), o, r),
                           {'name': name, 'supp': g, 'importlib': f[:5]}, ok))
     # ---- relative names
-    for (fname, guess, spec), n, r in zip(ct['rel'], sres['norm'], ores['rel']):
+    for (fname, guess, spec, cwd), n, r in zip(ct['rel'], sres['norm'], ores['rel']):
         level, rest = spec_parts(spec)
         if rest and not wellformed(rest):
             continue
@@ -817,9 +853,13 @@ def build_cases(ctx, t, ct, tb, sres, ores, base, sfx_all):
         else:
             rr = '(Some (%s, %s))' % (cname(r[0]) if r[0] else '[]', nres_term(r[1]))
             ok = (n == r[1])
-        cases.append(Case(key, 'rel', '(%s, QRel %s %s %s %s %s %s)' % (
-            T, cname(guess), pr.path(fname), coq_nat(level), cname(rest) if rest else '[]', o, rr),
-            {'file': fname, 'spec': spec, 'name': guess, 'supp': n, 'importlib': r}, ok))
+        tbs = tb.rstrip('/') + '/'
+        cases.append(Case(key, 'rel', '(%s, QRel %s %s %s %s %s %s %s)' % (
+            T, cname(guess), pr.path(fname), coq_option(pr.path(cwd)) if cwd else 'None', coq_nat(level),
+            cname(rest) if rest else '[]', o, rr),
+            {'file': fname, 'spec': spec, 'name': guess, 'supp': n, 'importlib': r,
+             'file_name_relative_to': cwd, 'file_rel': fname[len(tbs):],
+             'cwd_rel': None if not cwd else (cwd[len(tbs):] or '.')}, ok))
     # ---- package listings
     for i, (pkg, l, ch) in enumerate(zip(ct['lists'], sres['lists'], ores['children'])):
         if pkg and not wellformed(pkg):
@@ -983,7 +1023,7 @@ def evaluate(ctx, trees, base, strings=()):
 
 def tree_replay(t, case):
     return {'kind': case.kind, 'tree': {'entries': t['entries'], 'sources': t['sources'], 'extra': t.get('extra', []),
-                                        'preload': t.get('preload', [])},
+                                        'after': t.get('after', []), 'preload': t.get('preload', [])},
             'query': case.info}
 
 
@@ -1012,7 +1052,7 @@ def run(ctx):
         trees.append(gen_tree(ctx.rng, i, ext))
     strings = random_strings(ctx.rng, ctx.pick(300, 3000))
     by_id = {t['id']: t for t in trees}
-    tree_hash = {t['id']: hash(json.dumps([t['entries'], t['sources'], t['extra']], sort_keys=True)) for t in trees}
+    tree_hash = {t['id']: hash(json.dumps([t['entries'], t['sources'], t['extra'], t.get('after', [])], sort_keys=True)) for t in trees}
     cases, codes, sfx, lsfx = evaluate(ctx, trees, base, strings)
     cov['suffixes_supp'] = sfx
     cov['suffixes_importlib_loader_order'] = lsfx
@@ -1107,10 +1147,11 @@ def replay(ctx, obj):
     t['names'] = [q['name']] if r['kind'] == 'mod' else []
     t['rel'] = []
     if r['kind'] == 'rel':
-        tbp = os.path.join(ctx.scratch, 'T', 'replay') + '/'
-        f = q['file']
-        f = f[f.index('/T/') + 3:].split('/', 1)[1] if '/T/' in f else f
-        t['rel'] = [[f, q['name'], q['spec']]]
+        f = q.get('file_rel')
+        if f is None:
+            f = q['file']
+            f = f[f.index('/T/') + 3:].split('/', 1)[1] if '/T/' in f else f
+        t['rel'] = [[f, q['name'], q['spec'], q.get('cwd_rel')]]
     t['lists'] = [q['pkg']] if r['kind'] == 'list' else []
     t['assist'] = []
     base = base_path()
